@@ -151,6 +151,40 @@ static const char* const settingStrings[] =
 
 static std::string workDir;        // scratch directory of the current case (files of the io operation)
 
+// A solver object constructed by placement new in a block pre-filled with a byte pattern. The pattern differs between
+// the first solo run (0x00), the concurrent runs (0xA5) and the second solo run (0x5A): behaviour that depends on a
+// member no constructor initialised shows up as a digest difference (or crash) deterministically instead of
+// depending on what the allocator happens to hand out.
+struct Placed
+{
+   void* mem = nullptr;
+   soplex::SoPlex* p = nullptr;
+   explicit Placed(int fill)
+   {
+      size_t al = alignof(soplex::SoPlex) < 16 ? 16 : alignof(soplex::SoPlex);
+      size_t sz = (sizeof(soplex::SoPlex) + al - 1) / al * al;
+      mem = aligned_alloc(al, sz);
+      memset(mem, fill, sz);
+   }
+   soplex::SoPlex& make()
+   {
+      p = new(mem) soplex::SoPlex();
+      return *p;
+   }
+   soplex::SoPlex& copy(const soplex::SoPlex& o)
+   {
+      p = new(mem) soplex::SoPlex(o);
+      return *p;
+   }
+   ~Placed()
+   {
+      if(p) p->~SoPlexBase();
+      free(mem);
+   }
+   Placed(const Placed&) = delete;
+   Placed& operator=(const Placed&) = delete;
+};
+
 static void redirect(soplex::SoPlex& sp, std::ostream& os)
 {
    for(int v = soplex::SPxOut::ERROR; v <= soplex::SPxOut::INFO3; v++) sp.spxout.setStream((soplex::SPxOut::Verbosity) v, os);
@@ -289,13 +323,14 @@ static void observeLP(soplex::SoPlex& sp, const Prog& p, Digest& d, const std::s
 
 // one complete life of a solver object: create, fill, operate, destroy. Touches nothing shared with other threads
 // except the library under test (and const program data).
-static void runProg(const Prog& p, int tid, Digest& d, Info& inf)
+static void runProg(const Prog& p, int tid, int fill, Digest& d, Info& inf)
 {
    using namespace soplex;
    std::ostringstream log;
    try
    {
-      SoPlex sp;
+      Placed spMem(fill);
+      SoPlex& sp = spMem.make();
       redirect(sp, log);
       sp.setIntParam(SoPlex::VERBOSITY, p.verb);
       setupMode(sp, p.mode);
@@ -486,7 +521,8 @@ static void runProg(const Prog& p, int tid, Digest& d, Info& inf)
             int reps = (int) std::max(1L, o.i(2));
             for(int r = 0; r < reps; r++)
             {
-               SoPlex b;
+               Placed bMem(fill);
+               SoPlex& b = bMem.make();
                std::ostringstream blog;
                redirect(b, blog);
                b.setIntParam(SoPlex::VERBOSITY, SoPlex::VERBOSITY_ERROR);
@@ -531,7 +567,8 @@ static void runProg(const Prog& p, int tid, Digest& d, Info& inf)
          }
          else if(kind == "clone")
          {
-            SoPlex c2(sp);
+            Placed cMem(fill);
+            SoPlex& c2 = cMem.copy(sp);
             std::ostringstream clog;
             redirect(c2, clog);
             Status st;
@@ -692,7 +729,7 @@ static void genOps(Case& c, int t, int mode, const LP& lp)
 {
    int sz = curSize();
    int k = R(1, 3 + sz / 12);
-   bool haveSolve = false, grown = false;   // grown: a row/column was added since the last solve
+   bool haveSolve = false, modified = false;   // modified: the LP was changed since the last solve
    auto op = [&](const char* kind)
    {
       Rec r("op");
@@ -703,12 +740,13 @@ static void genOps(Case& c, int t, int mode, const LP& lp)
    {
       //                solve bnd obj rng addrow addcol delrow delcol query qlp inf setinf stats settings parse io basis clone timer seed verb
       int kind = W({   28,   7,  7,  5,  5,     4,     4,     3,     4,    3,  3,  2,     5,    3,       3,    9, 3,    4,    2,    2,   2});
+      if(kind >= 1 && kind <= 7) modified = true;
       switch(kind)
       {
       case 0:
          c.recs.push_back(op("solve"));
          haveSolve = true;
-         grown = false;
+         modified = false;
          break;
       case 1:
       {
@@ -741,7 +779,6 @@ static void genOps(Case& c, int t, int mode, const LP& lp)
          int nz = R(1, 4);
          for(int e = 0; e < nz; e++) r.add(R(0, 30)).addq(Q(NZ(9)));
          c.recs.push_back(r);
-         grown = true;
          break;
       }
       case 5:
@@ -753,7 +790,6 @@ static void genOps(Case& c, int t, int mode, const LP& lp)
          int nz = R(0, 4);
          for(int e = 0; e < nz; e++) r.add(R(0, 30)).addq(Q(NZ(9)));
          c.recs.push_back(r);
-         grown = true;
          break;
       }
       case 6:
@@ -775,12 +811,13 @@ static void genOps(Case& c, int t, int mode, const LP& lp)
          c.recs.push_back(op("setinf").add(R(0, 2)));
          break;
       case 12:
-         // known finding stats-after-resize: printStatistics -> getDualViolation/getRedCostViolation index the stale
-         // solution vectors with the new numRows()/numCols() after addRow/addCol (out-of-bounds read, garbage output).
-         // Exclude exactly: statistics between an addrow/addcol and the next solve.
-         if(grown && knownKey("stats-after-resize"))
+         // known finding stats-after-modification: printStatistics -> getDualViolation/getRedCostViolation only test
+         // hasBasis() and then index the invalidated solution vectors with the current numRows()/numCols() (out-of-bounds
+         // read after addRow/addCol, null dereference when the vectors are empty, garbage in the output).
+         // Exclude exactly: statistics between a modification of the LP and the next solve.
+         if(modified && knownKey("stats-after-modification"))
          {
-            ev().count("excluded_known.stats-after-resize");
+            ev().count("excluded_known.stats-after-modification");
             c.recs.push_back(op("query"));
          }
          else c.recs.push_back(op("stats"));
@@ -986,9 +1023,9 @@ static Verdict runCase(const Case& c)
    std::vector<Info> infA(T), infB(T);
    std::vector<std::vector<Digest>> conc(reps, std::vector<Digest>(T));
    std::vector<std::vector<Info>> infC(reps, std::vector<Info>(T));
-   auto sequential = [&](std::vector<Digest>& d, std::vector<Info>& inf)
+   auto sequential = [&](std::vector<Digest>& d, std::vector<Info>& inf, int fill)
    {
-      for(int t = 0; t < T; t++) runProg(ps[t], t, d[t], inf[t]);
+      for(int t = 0; t < T; t++) runProg(ps[t], t, fill, d[t], inf[t]);
    };
    auto dump = [&]()   // debugging aid (--x dump=1): the digests of the first solo run
    {
@@ -998,7 +1035,7 @@ static Verdict runCase(const Case& c)
    };
    if(!first)
    {
-      sequential(seqA, infA);
+      sequential(seqA, infA, 0x00);
       dump();
    }
    std::vector<double> sink(T, 0.0);
@@ -1012,17 +1049,17 @@ static Verdict runCase(const Case& c)
          bar.wait();
          int w = ps[t].warm.empty() ? 0 : ps[t].warm[r % (int) ps[t].warm.size()];
          for(int k = 0; k < w; k++) sink[t] += warmup();
-         runProg(ps[t], t, conc[r][t], infC[r][t]);
+         runProg(ps[t], t, 0xA5, conc[r][t], infC[r][t]);
       });
       for(auto& x : th) x.join();
    }
    if(first)
    {
-      sequential(seqA, infA);
+      sequential(seqA, infA, 0x00);
       dump();
-      sequential(seqB, infB);
+      sequential(seqB, infB, 0x5A);
    }
-   else sequential(seqB, infB);
+   else sequential(seqB, infB, 0x5A);
 
    // evidence (main thread only)
    e.count(std::string("flavour.") + (isTsan ? "tsan" : "plain"));
@@ -1122,7 +1159,14 @@ static std::string frameFunction(const std::string& block)
       if(sp == std::string::npos) continue;
       size_t path = line.find(" /", sp);
       if(path == std::string::npos) continue;
-      std::string fn = line.substr(sp + 1, path - sp - 1);
+      std::string raw = line.substr(sp + 1, path - sp - 1), fn;
+      int depth = 0;
+      for(char ch : raw)   // drop template argument lists, then the parameter list
+      {
+         if(ch == '<') depth++;
+         else if(ch == '>') depth = depth > 0 ? depth - 1 : 0;
+         else if(depth == 0) fn += ch;
+      }
       size_t par = fn.find('(');
       if(par != std::string::npos && par > 0) fn = fn.substr(0, par);
       if(fn.compare(0, 8, "soplex::") == 0) return fn;
